@@ -23,6 +23,7 @@ let () =
              (match kind with
               | "cfg" -> Driver.handle_cfg text
               | "analyze" -> Driver.handle_analyze text
+              | "ast" -> Driver.handle_ast text
               | "parseline" ->
                 let v = match rest with v :: _ -> int_of_string v | [] -> 8 in
                 Driver.handle_parseline (n_of_int v) text
